@@ -342,6 +342,25 @@ class StepSearchLoop:
         I.path.require(z3.Implies(z3.And(s >= 0, s < j1), self._flag(I, sl, s)), "loop-invariant:step/operands-so-far-flagged", qfacts=True)
 
 
+class FirstMatchLoop:
+    """utilities.first_match_by_predicate: no entry before position j satisfies the predicate."""
+    def element(self, I, sl, j):
+        return sl.elem(j)
+
+    def on_entry(self, I, env, sl, st):
+        pass
+
+    def assume_at(self, I, env, sl, st, j):
+        P = I.ghost["first_match_P"]
+        qm(I).foralls.append((j, lambda t: z3.Not(P(t))))
+
+    def check_at(self, I, env, sl, st, j1):
+        P = I.ghost["first_match_P"]
+        s = z3.Int(I.path.fresh_name("s!nomatch"))
+        qm(I).add_index(s, sl.length)
+        I.path.require(z3.Implies(z3.And(s >= 0, s < j1), z3.Not(P(s))), "loop-invariant:first-match/no-match-so-far", qfacts=True)
+
+
 REGISTRY = {
     ("math_functions.multiply", 0): MultiplyLoop(),
     ("Add._compute_numeric_partials", 0): AccumulateLoop(),
@@ -350,4 +369,5 @@ REGISTRY = {
     ("Multiply._compute_synthetic_partials", 0): MultiplySynthAccumulateLoop(),
     ("utilities.partition_by_predicate", 0): PartitionLoop(),
     ("NAryExpression._take_reduction_step", 0): StepSearchLoop(),
+    ("utilities.first_match_by_predicate", 0): FirstMatchLoop(),
 }
